@@ -172,8 +172,18 @@ def render_task(spec, defs=None) -> str:
     if spec.get("produces") is not None:
         deco.append("produces=" + tree_expr(spec["produces"], False))
     lines = []
-    if deco:
+    # decorator order: `marks` = "above" | "below" puts a @pytask.mark.c07m decorator above / below @task(...): below means the mark is
+    # applied first and the function already carries pytask metadata when @task(...) sees it. `fname`: the function is not called
+    # task_<name>; its task name comes from @task(name=…).
+    marks = spec.get("marks")
+    if spec.get("fname"):
+        deco.insert(0, f'name="task_{name}"')
+    if marks == "above":
+        lines.append("@pytask.mark.c07m")
+    if deco or marks == "below":
         lines.append(f"@task({', '.join(deco)})")
+    if marks == "below":
+        lines.append("@pytask.mark.c07m")
     ps = []
     for p in spec["params"]:
         dep = not is_product_param(spec, p)
@@ -197,7 +207,7 @@ def render_task(spec, defs=None) -> str:
     if spec.get("ret") is not None:
         ret = " -> Annotated[Any, " + tree_expr(spec["ret"], False) + "]"
     sig = ("*, " + ", ".join(ps)) if ps else ""
-    lines.append(f"def task_{name}({sig}){ret}:")
+    lines.append(f"def {'fn' if spec.get('fname') else 'task'}_{name}({sig}){ret}:")
     prods = [p["name"] for p in spec["params"] if is_product_param(spec, p)]
     lines.append(f"    body({name!r}, dict({', '.join(p['name'] + '=' + p['name'] for p in spec['params'])}), {prods!r})")
     if spec.get("gen"):
@@ -212,7 +222,7 @@ def render_task(spec, defs=None) -> str:
 
 
 def render_module(specs) -> str:
-    head = ("from pathlib import Path\nfrom typing import Annotated, Any\nfrom pytask import task, Product, PythonNode, PickleNode\n"
+    head = ("from pathlib import Path\nfrom typing import Annotated, Any\nimport pytask\nfrom pytask import task, Product, PythonNode, PickleNode\n"
             "from c07rt import ROOT, cat, body\n\n")
     defs = {}
     tasks = [render_task(s, defs) for s in specs]
@@ -226,7 +236,7 @@ def decl_leaves(t):
 
 def write_project(root: Path, specs):
     root.mkdir(parents=True, exist_ok=True)
-    (root / "pyproject.toml").write_text("[tool.pytask.ini_options]\n")
+    (root / "pyproject.toml").write_text('[tool.pytask.ini_options]\nmarkers = {c07m = "C07: decorator-order variation"}\n')
     (root / "c07rt.py").write_text(RT)
     (root / "task_c07.py").write_text(render_module(specs))
     produced = set()        # leaves some task of the project declares as product (shared containers, writer tasks)
@@ -707,6 +717,8 @@ def gen_task(rng, name, special=None):
             p["product"] = True
             p["default"] = rng.choice([["list", []], ["tuple", []], ["dict", []]])
         spec["params"].append(p)
+    spec["marks"] = rng.choice([None, None, "above", "below", "below"])
+    spec["fname"] = rng.random() < 0.15
     if special == "gen":
         # task generator: goes through provisional.py's own kwargs loop; no return handling there
         spec["gen"] = True
@@ -763,7 +775,8 @@ def gen_shared_kwargs_group(rng, base):
             params.append({"name": "produces", "default": gen_decl_tree(rng, names, "ppk", leaf_p=0.5, nonempty=True), "annot": None, "product": False})
         rng.shuffle(params)
         specs.append({"name": f"{base}s{j}", "params": params, "kwargs": [list(x) for x in common], "kwargs_var": var,
-                      "ret": None, "produces": None, "out": None, "sentinel": False, "gen": rng.random() < 0.15})
+                      "ret": None, "produces": None, "out": None, "sentinel": False, "gen": rng.random() < 0.15,
+                      "marks": rng.choice([None, "above", "below"])})
     return specs
 
 
@@ -852,7 +865,9 @@ def check_projects(ctx, projs, results):
                 ctx.dist["e2e:return:" + ("fits" if fits(ret_tree(spec), spec["out"]) else "misfit")] += 1
             if ill_formed(spec):
                 ctx.dist["e2e:ill-formed"] += 1
-            for tag in ("gen", "kwargs_var", "shared"):
+            if spec.get("marks"):
+                ctx.dist["e2e:marks-" + spec["marks"]] += 1
+            for tag in ("gen", "kwargs_var", "shared", "fname"):
                 if spec.get(tag):
                     ctx.dist["e2e:" + tag] += 1
             for kind, msg, finding in oracle(spec, o):
